@@ -133,11 +133,12 @@ _SYMS = {}
 
 
 def _syms(f):
+    # the cached entry keeps the AST alive, so its id cannot be reused for another term
     k = f.get_id()
     r = _SYMS.get(k)
-    if r is None:
-        r = _SYMS[k] = frozenset(ct.free_syms(f))
-    return r
+    if r is None or not r[0].eq(f):
+        r = _SYMS[k] = (f, frozenset(ct.free_syms(f)))
+    return r[1]
 
 
 def cone_of_influence(hyps, seeds):
